@@ -59,6 +59,13 @@ class BoundBuilder:
     name: str
 
 
+class BoundReader:
+    """`self._op_pointer` / `self._op_value` held as a value."""
+
+    def __init__(self, name: str) -> None:
+        self.name = name
+
+
 class Branch:
     """The builder call `_build` makes for one operation name."""
 
@@ -115,6 +122,8 @@ def build_branches(ctx: Ctx) -> Dict[str, Branch]:
                 return lit
             if isinstance(e, ast.Attribute) and path_of(e.value) == "self" and e.attr in builders and isinstance(e.ctx, ast.Load):
                 return BoundBuilder(e.attr)
+            if isinstance(e, ast.Attribute) and path_of(e.value) == "self" and e.attr in ("_op_pointer", "_op_value") and isinstance(e.ctx, ast.Load):
+                return BoundReader(e.attr)  # held as a value: `(self._op_pointer if is_pointer else self._op_value)(...)`
             return None
 
         ex: Explorer
@@ -128,8 +137,14 @@ def build_branches(ctx: Ctx) -> Dict[str, Branch]:
             if name == "getattr" and isinstance(e.func, ast.Name) and len(e.args) == 2 and path_of(e.args[0]) == "self":  # noqa: PLR2004
                 if isinstance(args[1], str) and args[1] in builders:
                     return BoundBuilder(args[1])
+                if isinstance(args[1], str) and args[1] in ("_op_pointer", "_op_value"):
+                    return BoundReader(args[1])  # the reader chosen by name (`getattr(self, reader)(operation, key, name, i)`)
                 return None
             f = ex.value(e.func, env)
+            if isinstance(f, BoundReader):
+                vals = list(args) + [None] * 4
+                kws = {k.arg: ex.value(k.value, env) for k in e.keywords if k.arg}
+                return Member("pointer" if f.name == "_op_pointer" else "value", kws.get("key", vals[1]), kws.get("op", vals[2]))
             if isinstance(f, BoundBuilder):
                 kwargs: Dict[str, object] = {}
                 for k in e.keywords:
